@@ -1581,4 +1581,51 @@ theorem slices_chained_partition {α} (df : Rows α) (hs : (df.map (·.1)).Pairw
 example : slicesOfSeries [((0 : Int), 'a'), (3, 'b'), (5, 'c'), (7, 'd')] (.list [.none, .date 2]) (.list [.date 2, .date 5]) (some ['(', ']']) =
     .ok (.one [(0, 'a'), (3, 'b'), (5, 'c')]) := by rfl
 
+/-! ### the hypotheses of the theorems above are satisfiable (non-trivial values) -/
+
+/-- `stitch_once_lb`: lower bounds `[0, 4]`, two proper series - the stitched index is strictly increasing -/
+example : ∃ F, stitch [[(0, some 1), (5, some 2)], [(1, some 7), (9, some 3)]] (some [0, 4]) Option.none (some ['(', ']']) 1 = .ok (some F) ∧
+    F.rows.Pairwise (fun a b => a.1 < b.1) :=
+  ⟨_, rfl, stitch_once_lb [[(0, some 1), (5, some 2)], [(1, some 7), (9, some 3)]] [0, 4] rfl (by decide) rfl (by decide)
+    (some ['(', ']']) 1 false true rfl (by simp) _ rfl⟩
+
+/-- `stitch_once_both`: the chained lists `lb = [0, 5]`, `ub = [5, 9]` -/
+example : ∀ i (h1 : i < ([5, 9] : List Int).length) (h2 : i + 1 < ([0, 5] : List Int).length),
+    ([5, 9] : List Int)[i] ≤ ([0, 5] : List Int)[i + 1] := by
+  intro i h1 h2
+  have : i = 0 := by simp at h2; omega
+  subst this
+  simp
+
+/-- `stitch_broadcast_lb` / `stitch_source_broadcast_lb`: one lower bound `1` for both pieces -/
+example : stitch [[(0, some 1), (2, some 2)], [(1, some 7), (2, some 8), (9, some 3)]] (some [1]) (some [3, 9]) (some ['(', ']']) 1 =
+    .ok (some ⟨1, [(2, [some 2]), (2, [some 8]), (9, [some 3])]⟩) := by
+  rw [stitch_broadcast_lb _ 1 [3, 9] rfl (by decide)]; rfl
+
+/-- `stitch_broadcast_series`: one series cut at three bounds comes back whole up to the last bound -/
+example : stitch [[(0, some 1), (2, some 2), (7, some 3)]] Option.none (some [1, 2, 5]) (some ['(', ']']) 1 =
+    .ok (some ⟨1, [(0, [some 1]), (2, [some 2])]⟩) := by
+  rw [stitch_broadcast_series _ [1, 2, 5] (by decide) _ 1 (by decide)]; rfl
+
+/-- `stitch_length_mismatch`: three series, two bounds -/
+example : stitch [[], [], []] Option.none (some [1, 2]) (some ['(', ']']) 1 = .error .value :=
+  stitch_length_mismatch _ _ _ _ (by decide) (by decide) (by decide)
+
+/-- `stitch_source_frames`: the hypotheses on a Series, a DataFrame and a scalar -/
+example : normalise [Member.series [(0, some 1)], .frame ⟨2, [(3, [some 7, none])]⟩, .scalar (some 4)] Option.none (some [2, 5, 9]) =
+    .ok ([Member.series [(0, some 1)], .frame ⟨2, [(3, [some 7, none])]⟩, .scalar (some 4)],
+      [Option.none, some 2, some 5], [some 2, some 5, some 9]) := rfl
+
+#guard (boundariesOf [Option.none, some 2, some 5] [some 2, some 5, some 9]) == [2, 5, 9]
+
+/-! `unslice_restitch_exact` on the C13-N1 witness: the re-stitched frame is the frame without its all-NaN row -/
+#guard okEq (do
+    let f ← stitch nanSeries Option.none (some [2, 5]) (some ['(', ']']) 1
+    match f with
+    | some f => do
+        let u ← unslice f [2, 5]
+        let g ← stitch (u.map (·.2)) Option.none (some [2, 5]) (some ['(', ']']) 1
+        pure (g == some f.dropNaRows && f.dropNaRows != f)
+    | Option.none => pure false : Res Bool) true
+
 end Pyg.Props.C13
